@@ -4373,6 +4373,7 @@ int KSI_VerificationRule_PublicationsFilePublicationTimeMatchesExtenderResponse(
 	KSI_Integer *aggrTime = NULL;
 	KSI_Integer *pubDataPubTime = NULL;
 	KSI_Integer *extPubTime = NULL;
+	KSI_Integer *extAggrTime = NULL;
 	KSI_CalendarHashChain *extCalHashChain = NULL;
 	KSI_PublicationRecord *pubRec = NULL;
 	VerificationTempData *tempData = NULL;
@@ -4454,6 +4455,25 @@ int KSI_VerificationRule_PublicationsFilePublicationTimeMatchesExtenderResponse(
 		KSI_LOG_info(ctx, "Invalid extended signature calendar hash chain aggregation time.");
 		KSI_LOG_debug(ctx, "Publications file publication time: %llu.", (unsigned long long)KSI_Integer_getUInt64(pubDataPubTime));
 		KSI_LOG_debug(ctx, "Extended response publication time: %llu.", (unsigned long long)KSI_Integer_getUInt64(extPubTime));
+
+		VERIFICATION_RESULT_ERR(KSI_VER_RES_FAIL, KSI_VER_ERR_PUB_2, step);
+		res = KSI_OK;
+		goto cleanup;
+	}
+
+	res = KSI_CalendarHashChain_getAggregationTime(extCalHashChain, &extAggrTime);
+	if (res != KSI_OK) {
+		VERIFICATION_RESULT_ERR(KSI_VER_RES_NA, KSI_VER_ERR_GEN_2, KSI_VERIFY_NONE);
+		KSI_pushError(ctx, res, NULL);
+		goto cleanup;
+	}
+	/* Aggregation time is optional, default to publication time. */
+	if (extAggrTime == NULL) extAggrTime = extPubTime;
+
+	if (!KSI_Integer_equals(aggrTime, extAggrTime)) {
+		KSI_LOG_info(ctx, "Signature aggregation time does not match with extender response aggregation time.");
+		KSI_LOG_debug(ctx, "Signing time: %llu", (unsigned long long)KSI_Integer_getUInt64(aggrTime));
+		KSI_LOG_debug(ctx, "Extender aggregation time: %llu", (unsigned long long)KSI_Integer_getUInt64(extAggrTime));
 
 		VERIFICATION_RESULT_ERR(KSI_VER_RES_FAIL, KSI_VER_ERR_PUB_2, step);
 		res = KSI_OK;
